@@ -53,12 +53,26 @@ def ownersAt (cs : List PClient) (ls : Leases) (cid a : Bytes) : List PClient :=
   let l1 := cs.filter (cidMatch · cid)
   if !l1.isEmpty then l1 else ownersByAddr cs ls a
 
-def fromIgnoredLog (c : Conf) (cid a : Bytes) : Bool :=
-  let o := ownersAt c.clients c.leases cid a
+/-- Clients identified only through a zoned address.  The request's REAL peer
+address `a%z` equals the client's identifier; nothing is demanded when the peer
+has no zone or when the address is also configured under another zone (the
+documented indeterminate case of `FindLoose`). -/
+def zonedOwners (cs : List PClient) (a z : Bytes) : List PClient :=
+  let holders := cs.filter (fun c => c.zips.any (·.1 == a))
+  if z != [] && holders.all (fun c => c.zips.contains (a, z)) then holders else []
+
+/-- The clients a request with ClientID `cid` from `a%z` is from: the strongest
+level of `ownersAt`; a zoned address identifies when nothing else does. -/
+def ownersZ (cs : List PClient) (ls : Leases) (cid a z : Bytes) : List PClient :=
+  let o := ownersAt cs ls cid a
+  if !o.isEmpty then o else zonedOwners cs a z
+
+def fromIgnoredLog (c : Conf) (cid a : Bytes) (z : Bytes := []) : Bool :=
+  let o := ownersZ c.clients c.leases cid a z
   !o.isEmpty && o.all (·.ignLog)
 
-def fromIgnoredStat (c : Conf) (cid a : Bytes) : Bool :=
-  let o := ownersAt c.clients c.leases cid a
+def fromIgnoredStat (c : Conf) (cid a : Bytes) (z : Bytes := []) : Bool :=
+  let o := ownersZ c.clients c.leases cid a z
   !o.isEmpty && o.all (·.ignStat)
 
 /-- The name of the query is on the query-log ignore list, whatever its letter
@@ -89,6 +103,9 @@ structure Shadow where
   file : List Entry
   sc : List (Key × Nat)
   sd : List (Bytes × Nat)
+  /-- stats.db as last read raw: client and domain tables of all buckets -/
+  dc : List (Key × Nat) := []
+  dd : List (Bytes × Nat) := []
 
 def keyMasked : Key → Bool
   | .id _ => true
@@ -102,9 +119,9 @@ def specQuery (c : Conf) (sh : Shadow) (q : Query)
   let grownD := grown sd sh.sd
   let real := canon q.addr
   if nameIgnoredLog c q.name && !addedLog.isEmpty then some "log-ignored-name"
-  else if fromIgnoredLog c q.cid real && !addedLog.isEmpty then some "log-ignored-client"
+  else if fromIgnoredLog c q.cid real q.zone && !addedLog.isEmpty then some "log-ignored-client"
   else if nameIgnoredStat c q.name && !(grownC.isEmpty && grownD.isEmpty) then some "stats-ignored-name"
-  else if fromIgnoredStat c q.cid real && !(grownC.isEmpty && grownD.isEmpty) then some "stats-ignored-client"
+  else if fromIgnoredStat c q.cid real q.zone && !(grownC.isEmpty && grownD.isEmpty) then some "stats-ignored-client"
   else if c.anon && !addedLog.all (fun e => masked e.ip) then some "log-unmasked"
   else if c.anon && !grownC.all keyMasked then some "stats-unmasked"
   else none
@@ -136,7 +153,19 @@ def firstSome {α : Type} (f : α → Option String) : List α → Option String
 
 /-- Statistics report: nothing is reported that is not stored. -/
 def specReport (sh : Shadow) (sc : List (Key × Nat)) (sd : List (Bytes × Nat)) : Option String :=
-  if !(grown sc sh.sc).isEmpty || !(grown sd sh.sd).isEmpty then some "stats-report-foreign" else none
+  if !(grown sc (sh.dc ++ sh.sc)).isEmpty || !(grown sd (sh.dd ++ sh.sd)).isEmpty then
+    some "stats-report-foreign"
+  else none
+
+/-- Disk clause for the statistics: stats.db (read raw, all buckets) holds no
+client or domain count beyond what the database and the memory unit held
+before, and storing a unit adds nothing to the memory unit. -/
+def specDisk (sh : Shadow) (kc : List (Key × Nat)) (kd : List (Bytes × Nat))
+    (sc : List (Key × Nat)) (sd : List (Bytes × Nat)) : Option String :=
+  if !(grown kc (sh.dc ++ sh.sc)).isEmpty || !(grown kd (sh.dd ++ sh.sd)).isEmpty then
+    some "stats-disk-foreign"
+  else if !(grown sc sh.sc).isEmpty || !(grown sd sh.sd).isEmpty then some "stats-disk-foreign"
+  else none
 
 /-- `none` = the operation's observable result is allowed by the property. -/
 def specStep (c : Conf) (sh : Shadow) (op : Op) (out : Out) : Option String :=
@@ -145,18 +174,30 @@ def specStep (c : Conf) (sh : Shadow) (op : Op) (out : Out) : Option String :=
   | .flush, .flushed mem file => specFlush sh mem file
   | .search, .found rs => firstSome (specFound c sh) rs
   | .stats, .report sc sd => specReport sh sc sd
+  | .tick, .ticked kc kd sc sd => specDisk sh kc kd sc sd
+  | .restart, .restarted mem file kc kd sc sd =>
+    (match specFlush sh mem file with
+     | some w => some w
+     | none => specDisk sh kc kd sc sd)
+  | .rotate, .rotated file =>
+    if !(minus file sh.file).isEmpty then some "flush-foreign-record" else none
   | _, _ => none
 
 def specOK (c : Conf) (sh : Shadow) (op : Op) (out : Out) : Bool := (specStep c sh op out).isNone
 
 /-- The model's own stores as a shadow. -/
 def State.shadow (s : State) : Shadow :=
-  { mem := s.mem, file := s.file, sc := s.sClients, sd := s.sDomains }
+  { mem := s.mem, file := s.file, sc := s.sClients, sd := s.sDomains,
+    dc := s.dClients, dd := s.dDomains }
 
 /-- The shadow after an observation. -/
 def Shadow.update (sh : Shadow) : Out → Shadow
   | .stores mem sc sd => { sh with mem := mem, sc := sc, sd := sd }
   | .flushed mem file => { sh with mem := mem, file := file }
+  | .ticked kc kd sc sd => { sh with dc := kc, dd := kd, sc := sc, sd := sd }
+  | .restarted mem file kc kd sc sd =>
+    { mem := mem, file := file, dc := kc, dd := kd, sc := sc, sd := sd }
+  | .rotated file => { sh with file := file }
   | _ => sh
 
 /-- Every step of the model's run from `s` passes the monitor (evaluated on the
@@ -169,7 +210,7 @@ def monitoredRun : State → List Op → Bool
 neither for an ignored name nor from an ignored client. -/
 def RecordedBy (s : State) (q : Query) (e : Entry) : Prop :=
   e = logEntry s.conf q ∧ nameIgnoredLog s.conf q.name = false ∧
-    fromIgnoredLog s.conf q.cid (canon q.addr) = false
+    fromIgnoredLog s.conf q.cid (canon q.addr) q.zone = false
 
 /-- A query as the server can receive it: `netip.Addr.AsSlice` has 4 or 16 bytes. -/
 def Op.valid : Op → Bool
